@@ -555,7 +555,15 @@ func (p *Path) callFunction(fn *ssa.Function, args []Value, env []Value) (ret Va
 		return h(p, fn, args)
 	}
 	if rd := p.eng.redirect(fn, name); rd != nil {
-		fn = rd
+		skip := false
+		for _, n := range p.cfg.NoRedirect {
+			if n == name {
+				skip = true
+			}
+		}
+		if !skip {
+			fn = rd
+		}
 	}
 	if fn.Blocks == nil {
 		if p.inInit > 0 {
